@@ -112,17 +112,20 @@ AddTpl(h, fc) ==
    IN [r.h EXCEPT !.tpls = Append(@, [subs |-> r.ids, kw |-> Len(h.content) + 1, small |-> fc.small])]
 
 (* PlotTemplate(subplots=[SubPlotElements(curves=[...]), ...]): shape[m] curves in subplot m, all data = v, the m-th
-   subplot's k-th curve has legend k; optional parts present iff full *)
+   subplot's k-th curve has legend k; optional parts present iff full.  A value above 3 stands for 2-D data (only in
+   recorded histories): other bins (token 4: two arrays), otherwise the same *)
 NewFull(shape, v, full) ==
    LET o == IF full THEN v ELSE 0 IN
    [small |-> 1, kw |-> o,
     subs |-> [m \in DOMAIN shape |-> [ax |-> v, lim |-> o, lines |-> o, logx |-> 1,
-                                      curves |-> [k \in 1 .. shape[m] |-> [val |-> v, bins |-> 1, err |-> o, leg |-> k, idx |-> 1]]]]]
+                                      curves |-> [k \in 1 .. shape[m] |-> [val |-> v, bins |-> IF v > 3 THEN 4 ELSE 1, err |-> o, leg |-> k, idx |-> 1]]]]]
 NewH(h, shape, v, full) == AddTpl(h, NewFull(shape, v, full))
 (* t.copy() *)
 CopyH(h, t) == AddTpl(h, Full(h, t))
 (* a.join(b): a gets b's subplots, by value, after its own; a's options stay; b is not touched (b may be a) *)
 JoinH(h, a, b) == LET r == AddSubs(h, Full(h, b).subs) IN [r.h EXCEPT !.tpls[a].subs = @ \o r.ids]
+(* a deliberately wrong join (b's subplots first) for the negative self-test of the harness *)
+JoinHPrepends(h, a, b) == LET r == AddSubs(h, Full(h, b).subs) IN [r.h EXCEPT !.tpls[a].subs = r.ids \o @]
 (* join(a, b): a new template *)
 JoinNewH(h, a, b) == AddTpl(h, [Full(h, a) EXCEPT !.subs = @ \o Full(h, b).subs])
 (* the user writes v into field f of template t / its s-th subplot / the c-th curve of that (in place for the
@@ -163,8 +166,8 @@ ApplyOp(h, e) ==
 -----------------------------------------------------------------------------
 (* the pool as a state machine *)
 NewOp(shape, v, full) == [NoOp EXCEPT !.op = "new", !.shape = shape, !.v = v, !.full = full]
-Init == \E sa \in Shapes, fa \in Fulls : \E second \in BOOLEAN : \E sb \in Shapes, fb \in Fulls, vb \in Vals :
-           /\ (~second => sb = sa /\ fb = fa /\ vb = 1)
+Init == \E sa \in Shapes, fa \in Fulls : \E second \in BOOLEAN : \E sb \in Shapes, fb \in {fa}, vb \in Vals :
+           /\ (~second => sb = sa /\ vb = 1)
            /\ hist = IF second THEN <<NewOp(sa, 1, fa), NewOp(sb, vb, fb)>> ELSE <<NewOp(sa, 1, fa)>>
            /\ heap = IF second THEN NewH(NewH(Empty, sa, 1, fa), sb, vb, fb) ELSE NewH(Empty, sa, 1, fa)
            /\ n0 = Len(hist)
@@ -173,16 +176,19 @@ Room   == Len(heap.tpls) < MaxTpl
 NMut   == Cardinality({k \in DOMAIN hist : hist[k].op = "mutate"})
 Do(e)  == heap' = ApplyOp(heap, e) /\ hist' = Append(hist, e) /\ UNCHANGED n0
 
-New == Budget /\ Room /\ \E sh \in Shapes, v \in Vals, fl \in Fulls : Do(NewOp(sh, v, fl))
+New == Budget /\ Room /\ Len(heap.tpls) < 2 /\ \E sh \in Shapes, v \in Vals, fl \in Fulls : Do(NewOp(sh, v, fl))
 Copy == Budget /\ Room /\ \E t \in DOMAIN heap.tpls : Do([NoOp EXCEPT !.op = "copy", !.i = t])
 Join == Budget /\ \E a, b \in DOMAIN heap.tpls :
            Len(heap.tpls[a].subs) + Len(heap.tpls[b].subs) <= 4 /\ Do([NoOp EXCEPT !.op = "join", !.i = a, !.j = b])
 JoinNew == Budget /\ Room /\ \E a, b \in DOMAIN heap.tpls :
            Len(heap.tpls[a].subs) + Len(heap.tpls[b].subs) <= 4 /\ Do([NoOp EXCEPT !.op = "joinnew", !.i = a, !.j = b])
 Mutate == Budget /\ NMut < MaxMut /\
-          \E t \in DOMAIN heap.tpls, s \in 0 .. 4, c \in 0 .. 2, f \in MutFields, v \in Vals :
-             /\ Writable(heap, t, s, c, f) /\ v # Current(heap, t, s, c, f)
-             /\ Do([NoOp EXCEPT !.op = "mutate", !.i = t, !.s = s, !.c = c, !.f = f, !.v = v])
+          \E t \in DOMAIN heap.tpls, f \in MutFields :
+             \E s \in (IF f \in BufT \cup ScalT THEN {0} ELSE DOMAIN heap.tpls[t].subs) :
+                \E c \in (IF f \in BufC \cup ScalC THEN DOMAIN heap.subs[heap.tpls[t].subs[s]].curves ELSE {0}) :
+                   \E v \in Vals \ {Current(heap, t, s, c, f)} :
+                      /\ Writable(heap, t, s, c, f)
+                      /\ Do([NoOp EXCEPT !.op = "mutate", !.i = t, !.s = s, !.c = c, !.f = f, !.v = v])
 Next == New \/ Copy \/ Join \/ JoinNew \/ Mutate
 Spec == Init /\ [][Next]_vars
 
@@ -194,17 +200,21 @@ TypeOK ==
    /\ \A b \in DOMAIN heap.content : heap.content[b] \in Vals \cup {0}
 (* nothing is shared: distinct templates hold disjoint objects, a template holds a subplot object once *)
 NoSharing ==
-   /\ \A a, b \in Pool : a # b => Bufs(heap, a) \cap Bufs(heap, b) = {} /\ SubsOf(heap, a) \cap SubsOf(heap, b) = {}
-   /\ \A t \in Pool : Cardinality(SubsOf(heap, t)) = Len(heap.tpls[t].subs)
+   LET B == [t \in Pool |-> Bufs(heap, t)]  S == [t \in Pool |-> SubsOf(heap, t)] IN
+   /\ \A a, b \in Pool : a # b => B[a] \cap B[b] = {} /\ S[a] \cap S[b] = {}
+   /\ \A t \in Pool : Cardinality(S[t]) = Len(heap.tpls[t].subs)
 (* a == a.copy(), same fingerprint, same options; the copy owns everything it holds; the original is as it was *)
 CopyLaw == \A t \in Pool : LET h2 == CopyH(heap, t)  n == Len(h2.tpls) IN
               /\ Eq(h2, t, n) /\ Eq(h2, n, t) /\ SameFp(h2, t, n) /\ Full(h2, n) = Full(heap, t)
               /\ \A u \in Pool : Bufs(h2, n) \cap Bufs(h2, u) = {} /\ SubsOf(h2, n) \cap SubsOf(h2, u) = {}
               /\ \A u \in Pool : h2.tpls[u] = heap.tpls[u] /\ Full(h2, u) = Full(heap, u)
-EqLaw == \A a, b \in Pool : /\ Eq(heap, a, a)
-                            /\ Eq(heap, a, b) = Eq(heap, b, a)
-                            /\ Eq(heap, a, b) = SameFp(heap, a, b)
-                            /\ \A c \in Pool : Eq(heap, a, b) /\ Eq(heap, b, c) => Eq(heap, a, c)
+EqLaw == LET C == [t \in Pool |-> Content(heap, t)]
+             E == [a \in Pool |-> [b \in Pool |-> Eq(heap, a, b)]] IN
+         \A a, b \in Pool : /\ E[a][a]
+                            /\ E[a][b] = E[b][a]
+                            /\ E[a][b] = (C[a] = C[b])
+                            /\ E[a][b] = SameFp(heap, a, b)
+                            /\ \A c \in Pool : E[a][b] /\ E[b][c] => E[a][c]
 (* join: content = left then right, in order; left's options kept; the right operand and every other template are
    what they were; nb_plots adds up *)
 JoinLaw == \A a, b \in Pool : LET h2 == JoinH(heap, a, b) IN
@@ -226,8 +236,11 @@ JoinAssoc == \A a, b, c \in Pool :
               /\ Content(l2, Len(l2.tpls)) = Content(heap, a) \o Content(heap, b) \o Content(heap, c)
 (* a write changes the template it is made through and no other; a changed datum of the content changes == and the
    fingerprint, a changed option / attribute does not *)
-WriteLaw == \A t \in Pool, s \in 0 .. 4, c \in 0 .. 2, f \in MutFields, v \in Vals :
-              (Writable(heap, t, s, c, f) /\ v # Current(heap, t, s, c, f)) =>
+WriteLaw == \A t \in Pool, f \in MutFields :
+            \A s \in (IF f \in BufT \cup ScalT THEN {0} ELSE DOMAIN heap.tpls[t].subs) :
+             \A c \in (IF f \in BufC \cup ScalC THEN DOMAIN heap.subs[heap.tpls[t].subs[s]].curves ELSE {0}) :
+              \A v \in Vals \ {Current(heap, t, s, c, f)} :
+                 Writable(heap, t, s, c, f) =>
                  LET h1 == CopyH(heap, t)  n == Len(h1.tpls)  h2 == MutH(h1, n, s, c, f, v) IN
                  /\ Full(h2, n) # Full(h1, n)
                  /\ \A u \in Pool : Full(h2, u) = Full(heap, u)
@@ -236,6 +249,21 @@ WriteLaw == \A t \in Pool, s \in 0 .. 4, c \in 0 .. 2, f \in MutFields, v \in Va
 FrameLaw == [][\A t \in DOMAIN heap.tpls :
                   (hist'[Len(hist')].op \in {"new", "copy", "joinnew"} \/ hist'[Len(hist')].i # t)
                      => heap'.tpls[t] = heap.tpls[t] /\ Full(heap', t) = Full(heap, t)]_vars
+(* the same laws on the step actually taken (one application per transition: this is what the big configuration
+   checks; the quantified forms above are checked on a smaller one) *)
+StepLaw == [][LET e == hist'[Len(hist')]  n == Len(heap'.tpls) IN
+               CASE e.op = "new"     -> Full(heap', n) = NewFull(e.shape, e.v, e.full) /\ n = Len(heap.tpls) + 1
+                 [] e.op = "copy"    -> /\ Eq(heap', e.i, n) /\ Eq(heap', n, e.i) /\ SameFp(heap', e.i, n)
+                                        /\ Full(heap', n) = Full(heap, e.i) /\ n = Len(heap.tpls) + 1
+                 [] e.op = "join"    -> /\ Content(heap', e.i) = Content(heap, e.i) \o Content(heap, e.j)
+                                        /\ Full(heap', e.i).subs = Full(heap, e.i).subs \o Full(heap, e.j).subs
+                                        /\ Full(heap', e.i).kw = Full(heap, e.i).kw /\ Full(heap', e.i).small = Full(heap, e.i).small
+                                        /\ NbPlots(heap', e.i) = NbPlots(heap, e.i) + NbPlots(heap, e.j) /\ n = Len(heap.tpls)
+                 [] e.op = "joinnew" -> /\ Content(heap', n) = Content(heap, e.i) \o Content(heap, e.j)
+                                        /\ Full(heap', n).kw = Full(heap, e.i).kw /\ Full(heap', n).small = Full(heap, e.i).small
+                                        /\ n = Len(heap.tpls) + 1
+                 [] e.op = "mutate"  -> /\ Full(heap', e.i) # Full(heap, e.i) /\ n = Len(heap.tpls)
+                                        /\ (Content(heap', e.i) # Content(heap, e.i)) = (e.f \in ContentFields)]_vars
 IndexLaw == \A t \in Pool : LET ci == CurvesIndex(heap, t) IN
               /\ \A k \in 1 .. Len(ci) - 1 : ci[k] < ci[k + 1]
               /\ Range(ci) = IndexSetOf(heap, t)
@@ -245,9 +273,17 @@ Last == hist[Len(hist)]
 W_WriteAfterJoin == ~(Len(hist) >= 2 /\ Last.op = "mutate" /\ \E k \in DOMAIN hist : hist[k].op = "join" /\ hist[k].i = Last.i
                         /\ hist[k].i # hist[k].j /\ Last.s > 1 /\ Last.f \in BufC)
 W_WriteOriginalAfterCopy == ~(Last.op = "mutate" /\ \E k \in DOMAIN hist : hist[k].op = "copy" /\ hist[k].i = Last.i)
-W_EqualWithoutCopy == ~(\A k \in DOMAIN hist : hist[k].op \notin {"copy"}) \/ ~(\E a, b \in Pool : a # b /\ Eq(heap, a, b) /\ NbPlots(heap, a) = 2)
+W_EqualWithoutCopy == ~(Len(hist) > n0 /\ \A k \in DOMAIN hist : hist[k].op \notin {"copy"}) \/ ~(\E a, b \in Pool : a # b /\ Eq(heap, a, b) /\ NbPlots(heap, a) = 2)
 W_SelfJoin == ~(Last.op = "join" /\ Last.i = Last.j)
 Created(k) == Cardinality({q \in 1 .. k : hist[q].op \in {"new", "copy", "joinnew"}})
-W_WriteCopy == ~(Last.op = "mutate" /\ Last.f = "bins" /\ \E k \in DOMAIN hist : hist[k].op = "copy" /\ Created(k) = Last.i)
-W_Full == ~(Len(hist) - n0 = MaxOps)
+W_WriteCopy == ~(Last.op = "mutate" /\ Last.f \in BufC /\ \E k \in DOMAIN hist : hist[k].op = "copy" /\ Created(k) = Last.i)
+W_Full == ~(Len(hist) - n0 = MaxOps /\ MaxOps > 0)
+(* all witnesses in one run: an invariant that is always true and notes which witnesses TLC has met (none of them can
+   hold in an initial state, where the registers are reset); the postcondition demands all of them *)
+Witnesses == <<W_WriteAfterJoin, W_WriteOriginalAfterCopy, W_EqualWithoutCopy, W_SelfJoin, W_WriteCopy, W_Full>>
+MonitorInit == \A k \in 1 .. 6 : TLCSet(10 + k, FALSE)
+Monitor == \A k \in 1 .. 6 : Witnesses[k] \/ TLCSet(10 + k, TRUE)
+AllWitnessed == \A k \in 1 .. 6 : TLCGet(10 + k)
+MInit == Init /\ MonitorInit
+MSpec == MInit /\ [][Next]_vars
 =============================================================================
